@@ -369,11 +369,17 @@ pub fn check_mi(c: &MiCase, st: &mut Stats) -> Result<(), String> {
                     return Err(format!("not_ignore + validation: message with an integrity attribute behind FINGERPRINT / SHA256 accepted under a wrong key ({})", what));
                 }
             }
-            // damage the last MAC (the attribute the ordering rule would have ignored)
-            let last = r2.tlv.last().unwrap();
-            for bit in [0usize, 7, 8 * (last.val_len / 2) + 3, 8 * last.val_len - 1] {
+            // damage the last MAC (the attribute the ordering rule would have ignored), addressed through the layout of
+            // the library's own output
+            let Ok(w2) = ref_decode(&b2) else { return Ok(()) };
+            let Some(last) = w2.attrs.last() else { return Ok(()) };
+            let (val_off, val_len) = (last.hdr_off + 4, last.value.len());
+            if val_len < 20 || val_off + val_len > b2.len() {
+                return Ok(());
+            }
+            for bit in [0usize, 7, 8 * (val_len / 2) + 3, 8 * val_len - 1] {
                 let mut mb = b2.clone();
-                mb[last.val_off + bit / 8] ^= 0x80 >> (bit % 8);
+                mb[val_off + bit / 8] ^= 0x80 >> (bit % 8);
                 st.evaluations += 1;
                 if dec(&mb, &lkey) {
                     return Err(format!("not_ignore + validation: bit {} of the MAC behind FINGERPRINT / SHA256 flipped and the message is still accepted", bit));
